@@ -70,9 +70,10 @@ PROPS = {
         "assumptions": ["hits/dets input naming an index twice and b8 padding bits that are set are declared don't-care for bit values (no writer produces them); only safety is compared there"],
     },
     "C20": {
-        "lean_modules": ["StimModel.Props.C20", "StimModel.Core.Transpose", "StimModel.Core.Bits"],
+        "lean_modules": ["StimModel.Props.C20", "StimModel.Core.Transpose", "StimModel.Core.Bits", "StimModel.Props.XorVec"],
         "areas": [
             {"area": "bits", "n": {"quick": 2400, "thorough": 60000}},
+            {"area": "xorvec", "n": {"quick": 1200, "thorough": 40000}},
             {"area": "pauli", "n": {"quick": 900, "thorough": 20000}},
             {"area": "tableau", "n": {"quick": 150, "thorough": 3000}},
             {"area": "tsim", "shrink": True, "n": {"quick": 150, "thorough": 3000}},
@@ -350,6 +351,8 @@ _CLI_RULES = {
     "C11": "area amps: tableau_to_unitary (random tableaus and circuit tableaus, 1..4 qubits, both endiannesses, 3 word widths), unitary_to_tableau of those matrices times a global phase w^j (exact equality with the tableau), "
            "circuit_to_output_state_vector (1..5 qubits), stabilizer_state_vector_to_circuit (either endianness, global phase), TableauSimulator::to_state_vector after circuits with measurements and feedback (all 4^n Pauli expectations), "
            "amplitudes canonicalised to directions w^j and judged exactly by the Lean amplitude model",
+    "C20": "area xorvec: stim/mem/sparse_xor_vec.h (xor_merge_sort, xor_sorted_items with stack and heap temp buffers, operator^ / ^=, xor_item sequences, inplace_xor_sort on unsorted lists with repeats, "
+           "is_subset_of_sorted / is_superset_of) on lists of 0..90 items with many common items against the Lean model Stim.XorVec (equality)",
     "C19": "area cli: `stim gen` (--code/--gen, 6 code/task pairs, noise flags, rounds up to 2^32+1): printed text parses to the generator's circuit, header names "
            "task/rounds/distance, small instances judged by `gencode check`",
 }
